@@ -198,6 +198,29 @@ class CatchExceptions:
         sys.exit(1)
 
 
+def catch_errors(function, errors):
+    """Returns a version of `function` storing its exception in `errors`
+
+    To be used on the jobs of a joblib.Parallel call: joblib raises
+    the exception of a job at once, while the other jobs are still
+    running (and using their temporary files). The returned function
+    appends the exception to the `errors` list and returns None
+    instead, and does nothing once a job has failed. When all the jobs
+    are done the caller raises the first of the `errors`, if any.
+
+    """
+    def wrapper(*args, **kwargs):
+        if errors:
+            return None
+        try:
+            return function(*args, **kwargs)
+        except Exception as err:
+            errors.append(err)
+            return None
+
+    return wrapper
+
+
 def get_binary(binary):
     """Returns the path to the program `binary`
 
